@@ -99,7 +99,9 @@ type Case struct {
 	Tier    string
 	Seed    uint64
 	Verbose bool
-	st      *childState
+	// Bubble is true when the case runs inside a testing/synctest bubble.
+	Bubble bool
+	st     *childState
 	nviol   int32
 }
 
@@ -307,7 +309,7 @@ func runChild(t *testing.T, spec *Spec) {
 		} else if i%nshards != shard {
 			continue
 		}
-		c := &Case{Index: i, R: NewRand(seed, uint64(i)), T: t, Tier: tr, Seed: seed, Verbose: verbose, st: st}
+		c := &Case{Index: i, R: NewRand(seed, uint64(i)), T: t, Tier: tr, Seed: seed, Verbose: verbose, Bubble: spec.Bubble, st: st}
 		curCase.Store(int64(i))
 		caseStart.Store(time.Now().UnixNano())
 		fmt.Fprintf(os.Stderr, "CASE %d\n", i)
@@ -331,7 +333,14 @@ func runOneCase(t *testing.T, spec *Spec, c *Case) {
 	defer func() {
 		if r := recover(); r != nil {
 			stack := string(debug.Stack())
-			c.Violation("panic:"+panicClass(r, stack), fmt.Sprintf("panic: %v", r), firstLines(stack, 40))
+			msg := fmt.Sprint(r)
+			if strings.Contains(msg, "deadlock") || strings.Contains(msg, "blocked goroutines") {
+				buf := make([]byte, 4<<20)
+				n := runtime.Stack(buf, true)
+				stack = bubbleGoroutines(string(buf[:n]))
+				fmt.Fprintf(os.Stderr, "BUBBLE LEFTOVER GOROUTINES case=%d\n%s\n", c.Index, stack)
+			}
+			c.Violation("panic:"+panicClass(r, stack), fmt.Sprintf("panic: %v", r), firstLines(stack, 60))
 		}
 	}()
 	if spec.Bubble {
@@ -376,6 +385,17 @@ func panicClass(r any, stack string) string {
 		}
 	}
 	return msg
+}
+
+// bubbleGoroutines keeps the goroutines of a full dump that belong to a synctest bubble.
+func bubbleGoroutines(dump string) string {
+	var out []string
+	for _, g := range strings.Split(dump, "\n\n") {
+		if strings.Contains(g, "synctest") && !strings.Contains(g, "runtime.Stack") {
+			out = append(out, firstLines(g, 24))
+		}
+	}
+	return strings.Join(out, "\n\n")
 }
 
 func firstLines(s string, n int) string {
